@@ -144,7 +144,7 @@ PROPS = {
         "rule": ("the C10 sweep (same workspaces, offsets and query kinds); every range of every answer is judged: file belongs to the workspace; start<=end<=len on character boundaries; "
                  "name-like results (hover, references, highlights, rename edits, prepare-rename, semantic highlights) coincide with exactly one token of the file's parse; node-like results "
                  "(definition focus/full ranges) start and end on token boundaries with focus inside full; completion replacement ranges are one token, empty at the cursor, or node-like; diagnostics in bounds. "
-                 "Non-trivial/distinct as for C10."),
+                 "Non-trivial/distinct as for C10. Offsets include interior offsets of word-like tokens (identifiers, keywords, numbers), so a completion range that stops at the cursor instead of covering the token is seen."),
         "assumptions": [
             "token table = tokens of syntax::parse_module on the same text the database holds",
             "a query that panics yields no ranges and is C10's violation",
@@ -231,7 +231,7 @@ PROPS = {
         "rule": ("generated workspaces with up to 2 placeholder identifiers per function at expression positions; the generator records the set of value names visible there (locals innermost-first, module functions/constants/"
                  "constructors, unqualified imports under their local names) and the module accessors. completions(cursor at end of placeholder) must offer exactly that set (keywords/snippets and the five built-in constructors ignored), "
                  "each item replacing exactly the placeholder, and after accepting an item goto on the inserted name must reach the recorded declaration (fresh host). At every qualified use `m.x` completion with trigger '.' "
-                 "must offer exactly m's public functions and constructors of public non-opaque types. non-trivial = hole with >= 3 visible names; distinct by (workspace seed, hole). One workspace in three is split into two local packages (`app` depends on `lib` by path; imports only point from app to lib), so cross-package references, renames and completions are exercised. Second engine (m_types): the `value.` clause on typed programs - for parameters, let variables and clause variables of every custom type of the workspace (and of Int, String, List, tuple, function types) completion after `v.` must offer exactly the labelled fields common to all variants (nothing for non-record types)."),
+                 "must offer exactly m's public functions and constructors of public non-opaque types. non-trivial = hole with >= 3 visible names; distinct by (workspace seed, hole). One workspace in three is split into two local packages (`app` depends on `lib` by path; imports only point from app to lib), so cross-package references, renames and completions are exercised. Second engine (m_types): the `value.` clause on typed programs - for parameters, let variables and clause variables of every custom type of the workspace (and of Int, String, List, tuple, function types) completion after `v.` must offer exactly the labelled fields common to all variants (nothing for non-record types). Each offered name is also compared by KIND with the binding the generator's scoping picks at the hole (a shadowed spelling must be offered as the innermost binding: any local or parameter = kind Param, function = Function, constructor = Variant or - constructors with fields are rendered as functions - Function; constants and module accessors are not judged by kind)."),
         "assumptions": [
             "expected sets come from the generator's own scoping, never from glas",
             "`value.` field completion is checked on typed programs only (second engine m_types), because scoped-mode programs may be ill-typed",
@@ -320,7 +320,7 @@ PROPS = {
                  "file emptied, file added (roots re-set), dependency edge added/removed (package graph re-set alone), roots+graph replaced - each preceded by ~40 arbitrary queries on the long-lived host. After EVERY step a probe set "
                  "(diagnostics, syntax tree, full highlight per file; hover, goto, references, highlight, completion plain and '.', signature help, prepare-rename, rename at 12 [30] seeded token boundaries per file) is asked of the long-lived host, "
                  "of a fresh host, and of a second fresh host in shuffled order; normal forms must be equal. Every 4th state is additionally re-analysed in a separate process (different HashMap keys) and the per-probe hashes compared. "
-                 "evaluations = probe answers; non-trivial = history with >= 2 changes that completed; distinct by case seed. One history in eighty starts from a chain of 140-147 modules (more than the parse cache's LRU capacity of 128), each calling the previous one, so syntax trees are evicted and re-parsed between queries. One file edit in four carries several successive texts of the file in a single Change (the last one wins)."),
+                 "evaluations = probe answers; non-trivial = history with >= 2 changes that completed; distinct by case seed. One history in eighty starts from a chain of 140-147 modules (more than the parse cache's LRU capacity of 128), each calling the previous one, so syntax trees are evicted and re-parsed between queries. One file edit in four carries several successive texts of the file in a single Change (the last one wins). From step 12 on, edits also rewire imports (`import sibling`, `import sibling.{name}` added and removed), so import cycles of length 1-3 are created and broken while results memoised in the other state are still in the database."),
         "assumptions": [
             "normal form: sequences whose order carries meaning stay sequences; references, highlights, completion items and rename edits are compared as sorted multisets (HashSet iteration order is not part of the answer)",
             "file removal is not part of the statement and is not generated; FileIds are stable across the history and identical in the fresh hosts",
@@ -360,7 +360,7 @@ PROPS = {
         "rule": ("races: 1-2 generated documents (8-24 items each, non-ASCII strings/comments), 2-7 line-structure-changing edits, after the open and after every edit a batch of 1-16 requests (hover, definition, references, documentHighlight, "
                  "completion, rename, prepareRename, semanticTokens/full) aimed at valid positions of the version just sent; the whole byte stream is written without waiting, split at seeded points with seeded micro-pauses, "
                  "to the server built with --features verif and GLAS_VERIF_SCHED seeded delays at its yield points. A sequential reference run (plain binary, every request asked and awaited at EVERY version) gives the per-version answers. "
-                 "evaluations = races; non-trivial = race with at least one answered request; distinct by the hash of the server's own message order (responses and notifications). Request kinds raced: hover, definition, references, documentHighlight, completion, rename, prepareRename, signatureHelp (aimed inside argument lists), semanticTokens full and range, glas/syntaxTree."),
+                 "evaluations = races; non-trivial = race with at least one answered request; distinct by the hash of the server's own message order (responses and notifications). Request kinds raced: hover, definition, references, documentHighlight, completion, rename, prepareRename, signatureHelp (aimed inside argument lists), semanticTokens full and range, glas/syntaxTree. A didChange notification carries 1-3 content changes (ranged and full mixed); the sequential reference receives the same changes one notification each, so the intermediate texts exist as versions there and an answer computed on one of them is recognised."),
         "assumptions": [
             "(a) every request answered exactly once by a 30 s barrier, else deadlock classification (probe unanswered + flat CPU, gdb stacks attached) or inconclusive; (b) a probe after the burst is answered; "
             "(c) a result must equal (normal form) the sequential answer at the version the request was issued against; errors and RequestCancelled are accepted; a result equal to another version's answer or to none is a violation; "
@@ -379,8 +379,7 @@ PROPS = {
         "rule": ("project trees written to disk: root package `app` with 1-3 registry dependencies under build/packages/<name> (each listed directly by the root with probability 2/3, with random dependency edges among them: diamonds and "
                  "transitive-only packages), optionally a `path = \"../pathdep\"` dependency which lists a random subset of the root's registry packages as its own dependencies (the monorepo layout: everything is fetched into the ROOT's build/packages) "
                  "and, one time in three, has a private build/packages/<name> with ANOTHER copy of one of them (other modules), 1-3 modules per package from a pool of 8 names incl. nested directories (equal module names in different packages are common), a test/ module, "
-                 "and a free-standing file without gleam.toml; every package's entry module imports 5 module names sampled from the whole tree. A fresh real server per tree; entry modules and the free-standing file are opened root-first, "
-                 "dependency-first or free-standing-first. textDocument/definition is asked on every qualified use, prepareRename on every resolved one, hover and glas/syntaxTree in the free-standing file. "
+                 "and a free-standing file without gleam.toml; every package's entry module imports 5 module names sampled from the whole tree. A fresh real server per tree; entry modules are opened root-first, dependency-first (a path dependency's file before anything of its owner) or test-module-first, the free-standing file before all of them or only after the import queries (so that nothing re-assembles the package graph in between); the order is part of every signature. textDocument/definition is asked on every qualified use, prepareRename on every resolved one, hover and glas/syntaxTree in the free-standing file. "
                  "evaluations = trees; distinct by FNV-1a of the tree description. In half of the trees a registry dependency is then removed from the root's gleam.toml on disk and announced through workspace/didChangeWatchedFiles: prepareRename inside the removed package must still be refused (it lives under build/packages) and still be accepted in the root, and the root's imports must follow the new manifest."),
         "assumptions": [
             "layout rule (independent model): module name = path below src|test without extension; `import m` from package P may resolve only to a file named m in P or in a package P lists under [dependencies] (registry or path); "
